@@ -528,6 +528,8 @@ BEGIN {
 
 const c10RegexSrc = `
 BEGIN {
+	# fill > 0: that many other dynamic regexes are compiled first (regex cache full)
+	for (i = 0; i < fill; i++) zz += ("q" i) ~ ("^q" i "$")
 	r = R()
 	while (nxs()) {
 		s = S()
@@ -563,6 +565,7 @@ type c10Rx struct {
 }
 
 type c10Runner struct {
+	fill     int // regex program: number of other regexes compiled first
 	funcs    map[string]any
 	flatProg *parser.Program
 	rxProg   *parser.Program
@@ -1088,7 +1091,7 @@ func c10RegexUnit(c *core.Ctx, r *c10Runner, pat string, chars bool, subs, repls
 	defer func() { r.rx = nil }()
 	c.Announce(map[string]any{"kind": "regex-batch", "pat": c10Q(pat), "mode": c10ModeName(chars)})
 	for x.si < len(subs)-1 {
-		res := awk.Exec(r.rxProg, &interp.Config{Funcs: r.funcs, Chars: chars})
+		res := awk.Exec(r.rxProg, &interp.Config{Funcs: r.funcs, Chars: chars, Vars: []string{"fill", strconv.Itoa(r.fill)}})
 		if res.Panic == "" && res.Err == nil {
 			break
 		}
@@ -1256,6 +1259,27 @@ func c10Run(c *core.Ctx) {
 		}
 	}
 
+	// (5b) the same with the regex cache already full (130 other dynamic regexes
+	// compiled first) for the patterns on which leftmost-first and
+	// leftmost-longest differ: what is compiled late must behave like what is
+	// compiled first
+	r.fill = 130
+	for _, pat := range pats {
+		if !strings.Contains(pat, "(a|ab)") && !(strings.Contains(pat, "|") && !strings.Contains(pat, "(")) {
+			continue
+		}
+		if c.Expired() {
+			return
+		}
+		if !c.Mine() {
+			continue
+		}
+		for _, chars := range c10BothModes {
+			c10RegexUnit(c, r, pat, chars, subjects, repls[:6])
+		}
+	}
+	r.fill = 0
+
 	// (6) thorough only: longer subjects (length 5) for the patterns of <=2 atoms
 	if c.Thorough() {
 		var long []string
@@ -1307,7 +1331,7 @@ func init() {
 		Rule: "bounded-exhaustive enumeration against an executable model: every string of length <=3 (thorough <=4) over {a,b,é,\\xff} x " +
 			"every position x every length from a fixed list of 44 numbers (fractions, negatives, 2^31, 2^53, 2^63-1024, 2^63, 2^64, 1e30, 1e308, +-inf, nan) for substr; " +
 			"78 arguments for int() (75 finite); every subject x every needle of length <=2 for index; every string of length <=4 (5) over {a,é,\\xff,sep} for 14 single-character separators for split; " +
-			"every regex of <=3 atoms from 13 atoms, and every top-level alternation X|Y of sequences of 1..2 atoms over {a b ^ $ a*} (900 patterns), x every subject x every replacement of <=3 tokens over {&,\\&,\\\\,x,\\} for match/sub/gsub (thorough: also subjects of length 5 for regexes of <=2 atoms); all in byte mode and character mode. " +
+			"every regex of <=3 atoms from 13 atoms, and every top-level alternation X|Y of sequences of 1..2 atoms over {a b ^ $ a*} (900 patterns; these and the (a|ab) patterns also with 130 other regexes compiled first = regex cache full), x every subject x every replacement of <=3 tokens over {&,\\&,\\\\,x,\\} for match/sub/gsub (thorough: also subjects of length 5 for regexes of <=2 atoms); all in byte mode and character mode. " +
 			"A state is one argument tuple (mode, builtin, arguments); a transition is one builtin call on the real interpreter; distinct = distinct observed results",
 		Assumptions: []string{
 			"amd64 float-to-int conversion (out-of-range values become MinInt64); the model never relies on it",
